@@ -211,10 +211,12 @@ func runC05(c *an.Ctx) {
 	}
 	// the slot variable that selects the value variable: the one bound to a Range() value somewhere
 	var valSlot types.Object
+	var valSlotIdent *ast.Ident
 	noteSlot := func(target ast.Node, value ast.Expr) {
 		if s := slotOf(target); s != nil {
 			if _, isVal := identIn(value, valVars); isVal {
 				valSlot = an.ObjOf(info, s)
+				valSlotIdent = s
 			}
 		}
 	}
@@ -244,8 +246,21 @@ func runC05(c *an.Ctx) {
 		}
 		*list = append(*list, pairFinding{pos, msg, an.Facts(st)})
 	}
+	// slotNegative: what is known about `<slot> < 0` — as a recorded fact or through the constant the slot holds
+	slotNegative := func(x *an.Explorer, st *an.State, name string, id *ast.Ident) (val, known bool) {
+		if an.FactIs(st, name+" < 0", true) {
+			return true, true
+		}
+		if an.FactIs(st, name+" < 0", false) {
+			return false, true
+		}
+		if x != nil && id != nil {
+			return x.Truth(&ast.BinaryExpr{X: id, Op: token.LSS, Y: &ast.BasicLit{Kind: token.INT, Value: "0"}}, st)
+		}
+		return false, false
+	}
 	// binding of one loop variable: the slot decides key or value, and must be known to be >= 0
-	checkBind := func(st *an.State, target ast.Node, value ast.Expr, pos token.Pos) {
+	checkBind := func(x *an.Explorer, st *an.State, target ast.Node, value ast.Expr, pos token.Pos) {
 		s := slotOf(target)
 		if s == nil {
 			return
@@ -260,7 +275,7 @@ func runC05(c *an.Ctx) {
 			addOnce(&bindBad, pos, fmt.Sprintf("the variable in the key slot (%s) is bound to %s instead of the current element's index/key", s.Name, an.Str(value)), st)
 		}
 		_ = vname
-		if !an.FactIs(st, s.Name+" < 0", false) {
+		if neg, known := slotNegative(x, st, s.Name, s); !known || neg {
 			addOnce(&bindBad, pos, fmt.Sprintf("the variable in slot %s is bound on a path where %s >= 0 was not established", s.Name, s.Name), st)
 		}
 	}
@@ -340,7 +355,18 @@ func runC05(c *an.Ctx) {
 					if call, ok := an.Unparen(rhs).(*ast.CallExpr); !ok || !an.IsCallTo(info, call, "jet.indirectEface") {
 						addOnce(&bindBad, lhs.Pos(), "'.' is set to the element as the ranger returned it, not unwrapped from the interface it may be stored in (indirectEface): truthiness and conversions of '.' differ from those of a loop variable", st)
 					}
-					if valSlot == nil || !an.FactIs(st, an.RoleOf(valSlot)+" < 0", true) {
+					// the two-variable form leaves '.' alone whatever the second variable is called (also `_`)
+					for k, v := range st.Facts {
+						if pk := an.PlainKey(k); v && strings.HasPrefix(pk, "1 < len(") && strings.HasSuffix(pk, ".Set.Left)") {
+							addOnce(&bindBad, lhs.Pos(), "'.' is set to the current element in a range with two loop variables: the two-variable form must leave '.' alone", st)
+						}
+					}
+					valSlotNeg := false
+					if valSlot != nil {
+						neg, known := slotNegative(x, st, an.RoleOf(valSlot), valSlotIdent)
+						valSlotNeg = known && neg
+					}
+					if valSlot == nil || !valSlotNeg {
 						addOnce(&bindBad, lhs.Pos(), "'.' is set to the current element on a path where a value variable may exist (value slot < 0 not established)", st)
 					} else {
 						st.Set("rg:ctx", "1")
@@ -352,7 +378,7 @@ func runC05(c *an.Ctx) {
 				}
 			}
 			if ix, ok := an.Unparen(lhs).(*ast.IndexExpr); ok && p.FieldKey(info, ix.X) == "scope.variables" {
-				checkBind(st, ix.Index, rhs, lhs.Pos())
+				checkBind(x, st, ix.Index, rhs, lhs.Pos())
 			}
 		},
 		Call: func(x *an.Explorer, call *ast.CallExpr, st *an.State) {
@@ -425,7 +451,7 @@ func runC05(c *an.Ctx) {
 					addOnce(&loopBad, call.Pos(), "the else list is executed without ElseList != nil having been established", st)
 				}
 			case name == "(*jet.Runtime).executeSet" && len(call.Args) == 2:
-				checkBind(st, call.Args[0], call.Args[1], call.Pos())
+				checkBind(x, st, call.Args[0], call.Args[1], call.Pos())
 			}
 		},
 	}
